@@ -25,6 +25,7 @@ type Op struct {
 	Step  int    `json:"step,omitempty"`  // enum: the body runs when the (Step+1)-th key is visited
 	Brk   bool   `json:"brk,omitempty"`   // enum (for-in): break after the body (abandoned enumeration)
 	Body  *Op    `json:"body,omitempty"`  // enum: mutator issued while the enumeration is in progress
+	Rep   bool   `json:"rep,omitempty"`   // repetition of an earlier op of the sequence (possibly through another issuer)
 }
 
 func (o Op) String() string {
@@ -69,6 +70,9 @@ func (o Op) String() string {
 		}
 	}
 	b.WriteString(")/" + o.Iss)
+	if o.Rep {
+		b.WriteString("*")
+	}
 	return b.String()
 }
 
@@ -138,7 +142,7 @@ var wkSymbols = map[string]string{"@@iterator": "iterator", "@@toStringTag": "to
 var primValues = map[string]objmodel.Value{
 	"u": objmodel.Undefined, "n": objmodel.Null, "t": objmodel.True, "f": objmodel.False,
 	"1": objmodel.Num(1), "2": objmodel.Num(2), "-0": objmodel.Num(math.Copysign(0, -1)), "0": objmodel.Num(0), "nan": objmodel.Num(math.NaN()),
-	"1.5": objmodel.Num(1.5), "2.5": objmodel.Num(2.5), "300": objmodel.Num(300), "-1": objmodel.Num(-1), "big": objmodel.Num(4294967295), "2^32": objmodel.Num(4294967296),
+	"1.5": objmodel.Num(1.5), "2.5": objmodel.Num(2.5), "300": objmodel.Num(300), "-1": objmodel.Num(-1), "big": objmodel.Num(4294967295), "3": objmodel.Num(3), "7": objmodel.Num(7), "8": objmodel.Num(8), "5000": objmodel.Num(5000), "5001": objmodel.Num(5001), "2^32": objmodel.Num(4294967296),
 	"sa": objmodel.Str("a"), "sb": objmodel.Str("b"), "s7": objmodel.Str("7"), "s": objmodel.Str(""),
 }
 
@@ -235,4 +239,26 @@ func isStatusOp(op string) bool {
 
 func isMutator(op string) bool {
 	return isStatusOp(op) || op == "detach" || op == "paramset" || op == "enum"
+}
+
+// abstractKey identifies the abstract operation of an op independently of issuer and key spelling.
+func abstractKey(o *Op) string {
+	flags := 0
+	if o.Mask&2 != 0 {
+		flags |= o.Flags & 1
+	}
+	if o.Mask&16 != 0 {
+		flags |= o.Flags & 2
+	}
+	if o.Mask&32 != 0 {
+		flags |= o.Flags & 4
+	}
+	s := fmt.Sprintf("%s|%s|%s|%s|%s|%d|%d", o.Op, o.Obj, o.Key, o.Val, o.Recv, o.Mask, flags)
+	if o.Mask&4 != 0 {
+		s += "|g=" + o.Get
+	}
+	if o.Mask&8 != 0 {
+		s += "|s=" + o.Set
+	}
+	return s
 }
